@@ -27,6 +27,7 @@ type Ctrl struct {
 	Bufsiz     int                    `json:"bufsiz"`
 	PeriodMs   int                    `json:"period_ms"` // 0 = relisting disabled (10000h)
 	Filter     world.FilterSpec       `json:"filter"`
+	BaseRV     int                    `json:"base_rv,omitempty"` // the server's version counter starts here (0 = 10)
 	Init       []world.Spec           `json:"init"`
 	ListLatMs  [2]int                 `json:"list_lat_ms"`
 	VaryLat    bool                   `json:"vary_lat"`
@@ -113,6 +114,7 @@ func genInit(rng *rand.Rand, nkeys int) []world.Spec {
 func genC03Stale(g GenCtx) interface{} {
 	rng := g.Rng
 	sc := &Ctrl{Prop: g.Prop, Bufsiz: 100}
+	sc.BaseRV = world.BaseRVs[rng.Intn(len(world.BaseRVs))]
 	sc.PeriodMs = pickInt(rng, 50, 200)
 	p := sc.PeriodMs
 	sc.ListLatMs = [2]int{pickInt(rng, 0, 0, p/4), pickInt(rng, 0, p/4, p/2)}
@@ -148,6 +150,7 @@ func genC03(g GenCtx) interface{} {
 	}
 	rng := g.Rng
 	sc := &Ctrl{Prop: g.Prop}
+	sc.BaseRV = world.BaseRVs[rng.Intn(len(world.BaseRVs))]
 	sc.Bufsiz = pickInt(rng, 2, 3, 5, 10, 100)
 	sc.PeriodMs = pickInt(rng, 50, 200, 1000, 10000, 60000)
 	if g.Idx%8 == 1 {
@@ -204,6 +207,7 @@ func genC03(g GenCtx) interface{} {
 func genC04(g GenCtx) interface{} {
 	rng := g.Rng
 	sc := &Ctrl{Prop: g.Prop}
+	sc.BaseRV = world.BaseRVs[rng.Intn(len(world.BaseRVs))]
 	sc.Bufsiz = pickInt(rng, 2, 3, 4, 8, 16, 100)
 	sc.PeriodMs = 0
 	if rng.Intn(3) == 0 {
@@ -259,6 +263,7 @@ func runCtrl(sci interface{}) {
 	sc := sci.(*Ctrl)
 	setBufsiz(sc.Bufsiz)
 	srv := world.NewServer("pod")
+	srv.SetBaseRV(sc.BaseRV)
 	srv.F = world.NewFaults(sc.Faults)
 	srv.ListLatency = [2]time.Duration{ms(sc.ListLatMs[0]), ms(sc.ListLatMs[1])}
 	srv.VaryLatency = sc.VaryLat
